@@ -676,7 +676,8 @@ def _spaces(tier):
                       "cg", (n, 1, 1), _labels(n - 1)))
     if T:
         sp.append(_sp("cg 1-D 5 cells: all maps {-1..4}^5 x 3 environment maps", "cg", (5, 1, 1), _labels(4)))
-        sp.append(_sp("cg 1-D 6 cells: all maps {-1..3}^6 x 3 environment maps", "cg", (6, 1, 1), _labels(3)))
+        sp.append(_sp("cg 1-D 6 cells: all maps {-1..3}^6 x {uniform, 3 environments}", "cg", (6, 1, 1), _labels(3),
+                      envs=("uniform", "three")))
         sp.append(_sp("cg 1-D 6 cells: all maps {-1..5}^6, 2-environment map", "cg", (6, 1, 1), _labels(5),
                       envs=("two",)))
     else:
@@ -730,15 +731,16 @@ def _spaces(tier):
         sp.append(_sp("cg 3-D 2x2x2: all maps {-1,0}^8 x 3 environment maps x 2 non-default unit configurations",
                       "cg", (2, 2, 2), _labels(0), units=(1, 2)))
     # -- uncoarsegrain_trajectory on hand-built coarse trajectories (valid maps of the enumerated set) ------------
-    unc = [((3, 1, 1), 2, (0, 1)), ((4, 1, 1), 3, (0, 1)), ((2, 2, 1), 3, (0, 1)), ((3, 2, 1), 2, (0, 1)),
-           ((2, 2, 2), 1, (0,))]
+    U2 = ("uniform", "two")
+    unc = [((3, 1, 1), 2, (0, 1), U2), ((4, 1, 1), 3, (0, 1), U2), ((2, 2, 1), 3, (0, 1), U2),
+           ((3, 2, 1), 2, (0, 1), U2), ((2, 2, 2), 1, (0,), U2)]
     if T:
-        unc += [((5, 1, 1), 4, (0, 1)), ((3, 3, 1), 1, (0, 1)), ((2, 2, 2), 2, (0,))]
-    for g, mx, dus in unc:
+        unc += [((5, 1, 1), 4, (0, 1), U2), ((3, 3, 1), 1, (0, 1), U2), ((2, 2, 2), 2, (0,), ("two",))]
+    for g, mx, dus, envs in unc:
         n = g[0] * g[1] * g[2]
-        sp.append(_sp("unc %dx%dx%d: valid maps among {-1..%d}^%d x {uniform, 2 environments} x data in {%s}"
-                      % (g + (mx, n, ", ".join(DATA_UNITS[k] for k in dus))), "unc", g, _labels(mx),
-                      envs=("uniform", "two"), data_units=dus))
+        sp.append(_sp("unc %dx%dx%d: valid maps among {-1..%d}^%d x environment maps %s x data in {%s}"
+                      % (g + (mx, n, "/".join(envs), ", ".join(DATA_UNITS[k] for k in dus))), "unc", g, _labels(mx),
+                      envs=envs, data_units=dus))
     # -- simulated coarse trajectories ---------------------------------------------------------------------------
     E3N = ("uniform", "two", "three")
     simf = [((3, 1, 1), 2, E3N, "none+rich"), ((2, 2, 1), 3, E3N, "none+rich"), ((3, 2, 1), 1, E3N, "rich")]
